@@ -225,7 +225,9 @@ func (hdr *TxHeader) ReadFrom(b []byte) error {
 		}
 	}
 
-	if hdr.NEntries < 1 {
+	// a transaction without entries is only valid when it carries non-client metadata
+	// (e.g. the truncation marker), mirroring the rule enforced when it is committed
+	if hdr.NEntries < 1 && (hdr.Metadata.IsEmpty() || hdr.Metadata.HasExtraOnly()) {
 		return fmt.Errorf("%w: invalid number of entries", ErrIllegalArguments)
 	}
 
